@@ -69,9 +69,17 @@ ResultClauses(e, I, R, tag) ==
        /\ Report(C07_Wbs(I, R), e, "C07.wbs", tag)
        /\ (fwd /\ I.balance) => Report(C08_WbsOrder(I, R), e, "C08.wbsorder", tag)
 
+(* the result of the first calc scheduled again (a schedule is a WBS like any other): C07 alone is judged *)
+ChainClauses(e, I, C) ==
+    /\ \A t \in Tasks(I) : Report(C07_Order(I, C, t), e, "C07.order", <<t, "chain">>)
+    /\ (\A t \in Tasks(I) : C.start[t] # Missing /\ C.end[t] # Missing) =>
+         /\ \A t \in Tasks(I) : ~IsLeaf(I, t) => Report(C07_RollUp(I, C, t), e, "C07.rollup", <<t, "chain">>)
+         /\ Report(C07_Wbs(I, C), e, "C07.wbs", "chain")
+
 JudgeOk(e) ==
     LET I == e.I  R == e.R IN
     /\ ResultClauses(e, I, R, 0)
+    /\ e.chain.out = "ok" => ChainClauses(e, I, e.chain)
     /\ \A i \in DOMAIN e.rep : e.rep[i].out = "ok" => ResultClauses(e, I, WithRows(R, e.rep[i]), i)
     /\ (\A t \in Tasks(I) : R.start[t] # Missing /\ R.end[t] # Missing) =>
        /\ \A i \in DOMAIN e.obs.reserved :
